@@ -161,6 +161,10 @@ func (Engine) Generate(r *simcore.RNG, tier string, idx int) *simcore.Plan {
 			st.A = []int64{r.Range(1, 30)}
 		case 13:
 			st.Op = "restart"
+			// (A[1] == 1 would restart the chain from its own export instead. Not generated: after an import
+			// x/superfluid runs its epoch-start routine in the first block with multipliers that read as zero,
+			// x/twap may refuse the export altogether, supply offsets are gone - consequences of the export/import
+			// gaps recorded under C19 that would drown this property's own oracles. The lockup engine does use it.)
 		case 14:
 			st.Op = "beginall" // the bulk message: must refuse as a whole while one of the owner's locks is delegated
 			st.A = []int64{r.Range(0, 3)}
@@ -411,8 +415,37 @@ func (Engine) Execute(run *simcore.Run) {
 			}
 			switch st.Op {
 			case "restart":
-				n.Restart()
-				run.Fault("restart")
+				if st.Arg(1) == 1 && (n.Height+1)%120 != 0 {
+					// the chain is restarted from an export: only what the modules' genesis carries survives. The
+					// block that commits the import runs x/superfluid's epoch-start routine (x/epochs resets the epoch
+					// start height to the import height), i.e. a refresh; bank supply offsets are in no genesis (both
+					// recorded under C19), so the reported supply is re-based here.
+					if err := n.Reimport(); err != nil {
+						sig := "fails"
+						if strings.Contains(err.Error(), "twap record p0 and p1 last spot price must be zero") {
+							// x/twap's genesis validation refuses records its own end-blocker writes (known finding, an
+							// export/import matter recorded under C19): the node is restarted the ordinary way instead
+							sig = "twap-genesis-validation"
+						}
+						run.Fail("C11", "reimport", sig, "restarting the chain from its own export failed: %v", err)
+						if sig == "fails" || run.Stop() {
+							return
+						}
+						n.Restart()
+						run.Fault("restart")
+					} else {
+						run.Fault("restart-from-export")
+					}
+					w.ops = map[string]int{}
+					w.unsettled = map[string]bool{}
+					w.baseSupply = w.supplyWithOffset(n.QueryCtx())
+					if !w.oracle("restart-from-export") {
+						return
+					}
+				} else {
+					n.Restart()
+					run.Fault("restart")
+				}
 				if !begin(time.Duration(1+st.Arg(0)) * time.Second) {
 					return
 				}
